@@ -41,6 +41,9 @@ H = {"quick": 2, "thorough": 3}
 NSHARDS = 16
 
 
+_STAMPS = itertools.count(1)
+
+
 class Mix:
     pass
 
@@ -82,6 +85,13 @@ class FP(ASTNode):
     one: ASTNode | None = None
     items: tuple[ASTNode, ...] = ()
     tag: int = 0
+    # a per-instance value kept in a field that is neither an init argument nor compared (a serial number): every new object
+    # gets its own, and no operation may write it (or anything else) back into an object that existed before
+    stamp: int = field(default=0, init=False, compare=False)
+
+    def __post_init__(self) -> None:
+        ASTNode.__post_init__(self)
+        object.__setattr__(self, "stamp", next(_STAMPS))
 
     def __len__(self) -> int:  # container-like: falsy while `items` is empty (it may still hold `one`)
         return len(self.items)
